@@ -13,6 +13,9 @@ theorem tie_h_mw_BasicAuth : Extracted.Auth.h_mw_BasicAuth = Canon.Auth.h_mw_Bas
 theorem tie_h_mw_skipBasicAuth : Extracted.Auth.h_mw_skipBasicAuth = Canon.Auth.h_mw_skipBasicAuth := by decide +kernel
 theorem tie_h_mw_TokenAuth : Extracted.Auth.h_mw_TokenAuth = Canon.Auth.h_mw_TokenAuth := by decide +kernel
 theorem tie_h_mw_skipTokenAuth : Extracted.Auth.h_mw_skipTokenAuth = Canon.Auth.h_mw_skipTokenAuth := by decide +kernel
+theorem tie_h_rest_auth_frontend_middleware_basic_auth_go : Extracted.Auth.h_rest_auth_frontend_middleware_basic_auth_go = Canon.Auth.h_rest_auth_frontend_middleware_basic_auth_go := by decide +kernel
+theorem tie_h_rest_auth_frontend_middleware_token_auth_go : Extracted.Auth.h_rest_auth_frontend_middleware_token_auth_go = Canon.Auth.h_rest_auth_frontend_middleware_token_auth_go := by decide +kernel
+theorem tie_h_rest_auth_frontend_middleware_global_go : Extracted.Auth.h_rest_auth_frontend_middleware_global_go = Canon.Auth.h_rest_auth_frontend_middleware_global_go := by decide +kernel
 theorem tie_skipBasicCond : Extracted.Auth.skipBasicCond = Canon.Auth.skipBasicCond := by decide +kernel
 theorem tie_wrapOrder : Extracted.Auth.wrapOrder = Canon.Auth.wrapOrder := by decide +kernel
 
@@ -26,6 +29,9 @@ theorem tie_wrapOrder : Extracted.Auth.wrapOrder = Canon.Auth.wrapOrder := by de
 #print axioms tie_h_mw_skipBasicAuth
 #print axioms tie_h_mw_TokenAuth
 #print axioms tie_h_mw_skipTokenAuth
+#print axioms tie_h_rest_auth_frontend_middleware_basic_auth_go
+#print axioms tie_h_rest_auth_frontend_middleware_token_auth_go
+#print axioms tie_h_rest_auth_frontend_middleware_global_go
 #print axioms tie_skipBasicCond
 #print axioms tie_wrapOrder
 
